@@ -289,7 +289,7 @@ func (c *Component) handleDiscover(pkt *dataplane.ParsedPacket) error {
 			}
 			return fmt.Errorf("no DHCPv4 provider for mode %s", mode)
 		}
-		response, err := provider.HandlePacket(c.Ctx, pkt)
+		response, err := c.handleResolvedV4(provider, pkt)
 		if err != nil {
 			return fmt.Errorf("dhcp provider failed: %w", err)
 		}
@@ -513,7 +513,7 @@ func (c *Component) handleRequest(pkt *dataplane.ParsedPacket) error {
 			}
 			return fmt.Errorf("no DHCPv4 provider for mode %s", mode)
 		}
-		response, err := provider.HandlePacket(c.Ctx, dhcpPkt)
+		response, err := c.handleResolvedV4(provider, dhcpPkt)
 		if err != nil {
 			c.logger.WithGroup(logger.IPoEDHCP4).Error("DHCP provider failed for REQUEST", "session_id", sess.SessionID, "error", err)
 			return fmt.Errorf("dhcp provider failed: %w", err)
